@@ -29,6 +29,12 @@ IsEvent(name) == l <= Len(Trace) /\ Trace[l].ev = name /\ l' = l + 1
 
 \* the logged balances of account a after the block equal what the specification computed
 PostMatches(a, post) == \A i \in 1..Len(post) : Get(bal', <<a, post[i].t>>, BZero) = post[i].v
+\* ... and every balance of the account which the specification's action changes is among the logged ones: the code wrote it
+\* (a credit the code forgets leaves no entry in the block's state changes - without this it would go unnoticed until the
+\* balance is written again)
+ChangedLogged(a, post) ==
+  \A k \in DOMAIN bal' :
+    (k[1] = a /\ Get(bal', k, BZero) # Get(bal, k, BZero)) => \E i \in 1..Len(post) : post[i].t = k[2]
 Remember(bid, a, post) == postOf' = Put(postOf, bid, [a |-> a, post |-> post])
 
 TReset == /\ IsEvent("Reset")
@@ -47,24 +53,24 @@ TGenesis == /\ IsEvent("Genesis")
 
 TSend == /\ IsEvent("Send")
          /\ Send(E.id, E.a, E.to, E.t, E.v)
-         /\ PostMatches(E.a, E.post) /\ Remember(E.id, E.a, E.post)
+         /\ PostMatches(E.a, E.post) /\ ChangedLogged(E.a, E.post) /\ Remember(E.id, E.a, E.post)
          /\ UNCHANGED <<cbal, obs>>
 
 TRecv == /\ IsEvent("Recv")
          /\ Recv(E.a, E.sid)
-         /\ PostMatches(E.a, E.post) /\ Remember(E.id, E.a, E.post)
+         /\ PostMatches(E.a, E.post) /\ ChangedLogged(E.a, E.post) /\ Remember(E.id, E.a, E.post)
          /\ UNCHANGED <<cbal, obs>>
 
 \* receive by an account the send was not addressed to (only possible below the enforcement height)
 TMisRecv == /\ IsEvent("MisRecv")
             /\ LegacyMismatchRecv(E.a, E.sid)
-            /\ PostMatches(E.a, E.post) /\ Remember(E.id, E.a, E.post)
+            /\ PostMatches(E.a, E.post) /\ ChangedLogged(E.a, E.post) /\ Remember(E.id, E.a, E.post)
             /\ UNCHANGED <<cbal, obs>>
 
 TCRecv == /\ IsEvent("CRecv")
           /\ CRecv(E.c, E.sid, E.status, E.desc, E.sup)
           /\ (E.status = "fail" => E.storage = 0)          \* a refunded call leaves the contract's storage untouched
-          /\ PostMatches(E.c, E.post) /\ Remember(E.id, E.c, E.post)
+          /\ PostMatches(E.c, E.post) /\ ChangedLogged(E.c, E.post) /\ Remember(E.id, E.c, E.post)
           /\ UNCHANGED <<cbal, obs>>
 
 \* a momentum: confirms the blocks E.bids (content order); E.sids are the send blocks among them
